@@ -133,6 +133,9 @@ pub fn c04_c05(prop: &str, seed: u64, budget: usize) -> Report {
             let o = Xyb::from(LinearRgb::new(vec![base], 1, 1).unwrap()).data()[0];
             if o.iter().all(|c| *c >= 0.0 && *c <= 1.0) { px.push(base); px.push(o); px.push(base); }
         }
+        // the image ends with signed (admissible) pixels, so that whatever tail a blocked implementation handles separately
+        // contains pixels with negative opsin mixes
+        if prop == "C04" { for j in 0..19usize { px.push(match j % 3 { 0 => [-1.0, -1.0, -1.0], 1 => [1.0, 1.0, -1.0], _ => [-0.5, -0.25, -1.0] }); } }
         let xyb = Xyb::from(LinearRgb::new(px.clone(), px.len(), 1).unwrap());
         if xyb.width() != px.len() || xyb.height() != 1 { rep.fail("dimensions not preserved", "xyb".into(), "".into(), "".into()); }
         rep.evaluated += px.len() as u64;
